@@ -518,14 +518,18 @@ Lemma used_features_mask d m u : used_features d (Some m) = Some u ->
   length m = d /\ forall f, In f u <-> (f < d)%nat /\ nth f m false = true.
 Proof.
   cbn [used_features]. destruct (length m =? d)%nat eqn:E; [|discriminate]. apply Nat.eqb_eq in E.
-  destruct (filter (fun i => nth i m false) (seq 0 d)) as [|a w] eqn:Ef; [discriminate|]. intros H. injection H as <-.
-  split; [exact E|]. intros f. rewrite <- Ef, filter_In, in_seq. split; intros [A B]; split; try assumption; lia.
+  destruct (existsb (fun b : bool => b) m); [|discriminate]. intros H. injection H as <-.
+  split; [exact E|]. intros f. rewrite filter_In, in_seq. split; intros [A B]; split; try assumption; lia.
 Qed.
 
 Lemma used_features_nonempty d m u : used_features d (Some m) = Some u -> u <> [].
 Proof.
-  cbn [used_features]. destruct (length m =? d)%nat; [|discriminate].
-  destruct (filter (fun i => nth i m false) (seq 0 d)) as [|a w]; [discriminate|]. intros H. injection H as <-. discriminate.
+  cbn [used_features]. destruct (length m =? d)%nat eqn:E; [|discriminate]. apply Nat.eqb_eq in E.
+  destruct (existsb (fun b : bool => b) m) eqn:Ex; [|discriminate]. intros H. injection H as <-.
+  apply existsb_exists in Ex. destruct Ex as (b & Hb & ->). destruct (In_nth m true false Hb) as (i & Hi & Hn).
+  intros Hnil. assert (Hin : In i (filter (fun i0 => nth i0 m false) (seq 0 d))).
+  { apply filter_In. split; [apply in_seq; lia | exact Hn]. }
+  rewrite Hnil in Hin. exact Hin.
 Qed.
 
 Definition n_used (d : nat) (mask : option (list bool)) : nat :=
@@ -542,8 +546,8 @@ Lemma used_features_count d mask u : used_features d mask = Some u -> length u =
 Proof.
   destruct mask as [m|]; cbn [used_features n_used].
   - destruct (length m =? d)%nat eqn:E; [|discriminate]. apply Nat.eqb_eq in E.
-    destruct (filter (fun i => nth i m false) (seq 0 d)) as [|a w] eqn:Ef; [discriminate|]. intros H. injection H as <-. subst d.
-    rewrite <- Ef, <- (filter_seq_nth m 0). f_equal. apply filter_ext. intros i. rewrite Nat.sub_0_r. reflexivity.
+    destruct (existsb (fun b : bool => b) m); [|discriminate]. intros H. injection H as <-. subst d.
+    rewrite <- (filter_seq_nth m 0). f_equal. apply filter_ext. intros i. rewrite Nat.sub_0_r. reflexivity.
   - intros H. injection H as <-. apply seq_length.
 Qed.
 
@@ -641,29 +645,62 @@ Proof.
     + eapply Rlt_le_trans; [exact Hhi | apply (Amax j Hj)].
 Qed.
 
-Lemma active_points_spec nrows ncols X cpl : (0 < nrows)%nat -> (0 < ncols)%nat ->
-  NoDup (map fst cpl) -> (forall fc, In fc cpl -> (fst fc < ncols)%nat) ->
+Lemma py_max_nat_spec l : match py_max_nat l with
+  | None => l = []
+  | Some m => In m l /\ forall a, In a l -> (a <= m)%nat end.
+Proof.
+  induction l as [|a r IH]; [reflexivity|]. cbn [py_max_nat]. destruct (py_max_nat r) as [m|].
+  - destruct IH as [Hin Hle]. split.
+    + destruct (Nat.max_spec a m) as [[_ ->]|[_ ->]]; [right; exact Hin | left; reflexivity].
+    + intros b [<-|Hb]; [apply Nat.le_max_l | eapply Nat.le_trans; [apply Hle; exact Hb | apply Nat.le_max_r]].
+  - subst r. split; [left; reflexivity | intros b [<-|[]]; lia].
+Qed.
+
+Lemma active_points_spec nrows ncols X cpl : (0 < nrows)%nat -> cpl <> [] ->
+  (forall fc, In fc cpl -> (fst fc < ncols)%nat) ->
   exists l, find_active_points Rops nrows ncols X cpl = FapOk l /\
     l = map fst (filter (active_feature Rops nrows X) cpl) /\
     (forall f, In f l <-> exists cuts, In (f, cuts) cpl /\ cut_inside nrows X f cuts).
 Proof.
-  intros Hn Hc Hnd Hlt. unfold find_active_points.
+  intros Hn Hne Hlt. unfold find_active_points.
+  assert (Hc : (0 < ncols)%nat).
+  { destruct cpl as [|fc r]; [contradiction|]. specialize (Hlt fc (or_introl eq_refl)). lia. }
   assert (E1 : ((nrows =? 0) || (ncols =? 0))%nat = false).
   { apply orb_false_iff. split; apply Nat.eqb_neq; lia. }
-  rewrite E1.
-  assert (Hlen : (length cpl <= ncols)%nat).
-  { rewrite <- (map_length fst cpl), <- (seq_length ncols 0). apply NoDup_incl_length; [exact Hnd|].
-    intros f Hf. apply in_map_iff in Hf. destruct Hf as (fc & <- & Hfc). apply in_seq. specialize (Hlt fc Hfc). lia. }
-  assert (E2 : (ncols <? length cpl)%nat = false) by (apply Nat.ltb_ge; exact Hlen).
+  rewrite E1. pose proof (py_max_nat_spec (map fst cpl)) as Hmax.
+  destruct (py_max_nat (map fst cpl)) as [mx|].
+  2:{ destruct cpl; [contradiction | discriminate]. }
+  destruct Hmax as [Hin _]. apply in_map_iff in Hin. destruct Hin as (fc & <- & Hfc).
+  assert (E2 : (ncols <=? fst fc)%nat = false) by (apply Nat.leb_gt, Hlt; exact Hfc).
   rewrite E2.
-  assert (E3 : forallb (fun fc : nat * list R => (fst fc <? ncols)%nat) cpl = true).
-  { apply forallb_forall. intros fc Hfc. apply Nat.ltb_lt. apply Hlt. exact Hfc. }
+  assert (E3 : forallb (fun fc0 : nat * list R => (fst fc0 <? ncols)%nat) cpl = true).
+  { apply forallb_forall. intros fc0 Hfc0. apply Nat.ltb_lt. apply Hlt. exact Hfc0. }
   rewrite E3. eexists. split; [reflexivity|]. split; [reflexivity|].
   intros f. rewrite in_map_iff. split.
   - intros ([f' cuts] & Hf & Hin). cbn [fst] in Hf. subst f'. apply filter_In in Hin. destruct Hin as [Hin Ha].
     exists cuts. split; [exact Hin | apply (active_feature_spec nrows X f cuts Hn); exact Ha].
   - intros (cuts & Hin & Hci). exists (f, cuts). split; [reflexivity|]. apply filter_In. split; [exact Hin|].
     apply (active_feature_spec nrows X f cuts Hn). exact Hci.
+Qed.
+
+(* data lacking a used column is rejected with ValueError; IndexError cannot happen any more *)
+Lemma active_points_narrow nrows ncols (X : nat -> nat -> R) cpl :
+  (exists fc, In fc cpl /\ (ncols <= fst fc)%nat) -> find_active_points Rops nrows ncols X cpl = FapValueError.
+Proof.
+  intros (fc & Hfc & Hle). unfold find_active_points. destruct ((nrows =? 0) || (ncols =? 0))%nat; [reflexivity|].
+  pose proof (py_max_nat_spec (map fst cpl)) as Hmax. destruct (py_max_nat (map fst cpl)) as [mx|]; [|reflexivity].
+  destruct Hmax as [_ Hm]. assert (fst fc <= mx)%nat by (apply Hm, in_map; exact Hfc).
+  assert (E : (ncols <=? mx)%nat = true) by (apply Nat.leb_le; lia). rewrite E. reflexivity.
+Qed.
+Lemma active_points_never_index_error nrows ncols (X : nat -> nat -> R) cpl :
+  find_active_points Rops nrows ncols X cpl <> FapIndexError.
+Proof.
+  unfold find_active_points. destruct ((nrows =? 0) || (ncols =? 0))%nat; [discriminate|].
+  pose proof (py_max_nat_spec (map fst cpl)) as Hmax. destruct (py_max_nat (map fst cpl)) as [mx|]; [|discriminate].
+  destruct Hmax as [_ Hm]. destruct (ncols <=? mx)%nat eqn:E; [discriminate|]. apply Nat.leb_gt in E.
+  assert (E3 : forallb (fun fc0 : nat * list R => (fst fc0 <? ncols)%nat) cpl = true).
+  { apply forallb_forall. intros fc0 Hfc0. apply Nat.ltb_lt. assert (fst fc0 <= mx)%nat by (apply Hm, in_map; exact Hfc0). lia. }
+  rewrite E3. discriminate.
 Qed.
 
 (* ------------------------------------------------------------------ grid cells: the prediction inside a cell *)
